@@ -147,8 +147,9 @@ func makeAccumulatorFunc(expr parser.ItemType) (newAccumulatorFunc, error) {
 				AddFunc: func(v float64) {
 					if !hasValue {
 						value = v
-					} else {
-						value = math.Max(value, v)
+					} else if value < v || math.IsNaN(value) {
+						// Like the Prometheus engine: NaN is only kept if nothing else shows up.
+						value = v
 					}
 					hasValue = true
 				},
@@ -169,8 +170,9 @@ func makeAccumulatorFunc(expr parser.ItemType) (newAccumulatorFunc, error) {
 				AddFunc: func(v float64) {
 					if !hasValue {
 						value = v
-					} else {
-						value = math.Min(value, v)
+					} else if value > v || math.IsNaN(value) {
+						// Like the Prometheus engine: NaN is only kept if nothing else shows up.
+						value = v
 					}
 					hasValue = true
 				},
